@@ -828,6 +828,10 @@ fn sp_fp_of(arch: Arch, ans: &str) -> Option<(u64, u64)> {
 }
 
 /// arm64e flavour: return address signing uses `pacibsp` ... `retab` (what the analysers know).
+pub fn macho_flavour_pub(f: &mut Func) {
+    macho_flavour(f)
+}
+
 fn macho_flavour(f: &mut Func) {
     // Apple's ABI puts the frame record at the top of the frame (fp + 16 is the caller's sp)
     for ins in f.insns.iter_mut() {
